@@ -310,3 +310,20 @@ where
     });
     ctx.rec.sub_done(sub, true, t0.elapsed().as_secs_f64(), "fixed list");
 }
+
+/// Draw `n` values from a strategy with a fixed seed (for fault / crash-point enumerations, where the
+/// inputs are sampled and the fault index is enumerated exhaustively).
+pub fn sample<S: Strategy>(seed: u64, n: usize, strat: &S) -> Vec<S::Value> {
+    use proptest::strategy::ValueTree;
+    let config = Config { failure_persistence: None, rng_seed: RngSeed::Fixed(seed), rng_algorithm: RngAlgorithm::ChaCha, ..Config::default() };
+    let mut runner = TestRunner::new(config);
+    let mut out = Vec::with_capacity(n);
+    let mut tries = 0;
+    while out.len() < n && tries < n * 20 {
+        tries += 1;
+        if let Ok(t) = strat.new_tree(&mut runner) {
+            out.push(t.current());
+        }
+    }
+    out
+}
